@@ -359,11 +359,11 @@ impl SodiumCtx {
                 });
         // if dependencies changed, then execute update on current node
         if any_changed {
-            #[cfg(sodiumfrp_sodium_rust_verif)]
-            self.verif_update_log.lock().push(node.gc_node.verif_id());
             let mut update = node.data.update.write();
             let update: &mut Box<_> = &mut *update;
             update();
+            #[cfg(sodiumfrp_sodium_rust_verif)]
+            self.verif_update_log.lock().push(node.gc_node.verif_id());
         }
         // if self changed then update dependents
         let changed = node.data.changed.load(Ordering::SeqCst);
